@@ -85,6 +85,8 @@ Proof.
   intros s; unfold pop_cleanup. destruct (cleanups (ts s)) as [|[id c] rest]; [|destruct (cleaning (ts s))];
     constructor; cbn; auto using sub_nil; discriminate.
 Qed.
+Lemma inv_note_skip m : INVb false (note_skip m).
+Proof. intros s; constructor; cbn; auto using sub_nil; discriminate. Qed.
 Lemma inv_failOnError l : INV (failOnError l).
 Proof. intros s. unfold failOnError. destruct (failed (ts s)); constructor; cbn; auto using sub_nil. Qed.
 
@@ -221,8 +223,9 @@ Section InterpInv.
     destruct c as [c|]; [|weak].
     apply inv_try; [apply INV_weaken, Hcrun|].
     intros [v|e]; [apply IH|].
-    destruct e; try (apply inv_bind; [weak|intros; apply IH]).
-    - apply inv_bind; [|intros; apply IH]. destruct (internal_msg m); weak.
+    destruct e; try apply IH.
+    - apply inv_bind; [destruct (internal_msg m); weak|intros _].
+      apply inv_bind; [apply inv_note_skip|intros; apply IH].
     - weak.
   Qed.
 
@@ -270,7 +273,8 @@ Section InterpInv.
     constructor; cbn [w rd rpd nf reg post ts with_ts].
     - exact H1.
     - intros Hn. rewrite (H2 Hn). reflexivity.
-    - intros _ Hn _. rewrite (H2 Hn). destruct s; reflexivity.
+    - intros _ Hn Hr. rewrite (H2 Hn). destruct s as [x [f c cx cl sk]]. cbn [ts skipreq failed cleanups ctx cleaning] in *.
+      destruct sk; [reflexivity|]. destruct (skipreq _); [discriminate|reflexivity].
   Qed.
 
   Lemma inv_run_action id (run_act : nat -> val -> M val) i s :
